@@ -107,9 +107,10 @@ MUTANTS = [
      "chosen_ids = optimized_ids"),
     ("C12", "sfs_generator/gasol_optimization.py", "    global already_considered\n    already_considered = []", "    global already_considered"),
     ("C13", "sfs_generator/gasol_optimization.py", "u_dict_sort = sorted(u_dict.keys())", "u_dict_sort = list(set(u_dict.keys()))"),
-    ("C14", "sfs_generator/utils.py", "        _ = optimization_sub_blocks[i].pop()\n        optimization_sub_blocks[i+1].pop(0)",
-     "        _ = optimization_sub_blocks[i].pop()\n        if i > 0:\n            optimization_sub_blocks[i+1].pop(0)"),
-    ("C16", "sfs_generator/gasol_optimization.py", 'json_dict["init_progr_len"] = max_instr_size-discount_op', 'json_dict["init_progr_len"] = max_instr_size-discount_op-1'),
+    ("C14", "solution_generation/optimize_from_sub_blocks.py", "            if previously_optimized:\n                optimized_instructions.append(previous_instructions[instr_idx-1])",
+     "            if previously_optimized and sub_block_idx > 1:\n                optimized_instructions.append(previous_instructions[instr_idx-1])"),
+    ("C16", "sfs_generator/gasol_optimization.py", 'json_dict["init_progr_len"] = min(max_instr_size, max_instr_size-discount_op+len(not_used))',
+     'json_dict["init_progr_len"] = min(max_instr_size, max_instr_size-discount_op+len(not_used))-1'),
     ("C17", "solution_generation/ids2asm.py", 'if associated_instr["disasm"] == "PUSH0":\n            return AsmBytecode(-1, -1, -1, "PUSH", "0")',
      'if associated_instr["disasm"] == "PUSH0":\n            return AsmBytecode(-1, -1, -1, "PUSH0", None)'),
 ]
